@@ -260,6 +260,7 @@ pub fn run_history(h: &History, cfg: &RunCfg, fault: Option<Fault>, fault2: Opti
     wd.new_in_flight.set(0);
     wd.nested_quiet.set(false);
     wd.fault_obj_mark.set(u32::MAX);
+    wd.coll_explicit.set(false);
     wd.cb_total.set(0);
     wd.unwrapping.set(None);
     reset_config();
